@@ -102,6 +102,20 @@ CLAIMED = {
         note=TB + "Partial: one task, no task groups inside the blocks in this model; cancel instants coinciding with deadlines excluded (odd/even instants).",
         technique="Coq proof (induction over programs with a stale-or-due invariant) + witness-driven vm_compute correspondence",
         ref='6/C12'),
+    'C14': dict(
+        text=("Proof: over exact rationals, for ALL configurations and all histories of traffic, errors with extra cost, bumps of "
+              "either sign, explicit re-evaluations and time advances: cost >= 0; each charge moves the cost by exactly the "
+              "stated amount (clamped) and the re-evaluation is lazy (exactly when the drift exceeds the extracted threshold) "
+              "and decays the cost by elapsed x rate; the permitted concurrency is a non-increasing function of the evaluated "
+              "cost, = initial at/below soft, = 0 at/above hard; fraction and target always stem from the same evaluation, so "
+              "an admitted request sleeps fraction x cost_sleep in [0, cost_sleep]; after an evaluation at/above hard admission "
+              "is refused; a client (hard <= soft) is never throttled. All constants re-read from the running code. "
+              "Correspondence: label-by-label against a real SessionBase with a patched clock (floats vs exact within 1e-6; "
+              "both branches accepted within 1e-7 of the laziness threshold / next to a ceil boundary). The -101 reply, hook "
+              "and close at session level are exercised by the session scenarios (C03/C05 harness), not proved here."),
+        note=TB + "Float rounding is not modelled (IEEE rounding monotone); time.time() is patched by the harness.",
+        technique="Coq proof over Q (lra, Qround monotonicity lemmas, invariants over label lists) + label-by-label correspondence against SessionBase",
+        ref='6/C14'),
 }
 
 REASONS = {}
